@@ -186,6 +186,7 @@ def task_np(*args):
     (chunk,) = targs
     _log('task', np_len=int(len(chunk)), first=(chunk.flat[0].item() if chunk.size else None), **_describe_extras(ex))
     _touch_state(ex)
+    _misbehave('task', int(chunk.flat[0]) if chunk.size else None)
     return chunk * 2
 
 
